@@ -21,9 +21,13 @@ Level1Names == {"antonini", "legall", "near_sym_a", "near_sym_b", "near_sym_b_bp
 QshiftNames == {"qshift_06", "qshift_32", "qshift_a", "qshift_b", "qshift_b_bp", "qshift_c", "qshift_d"}
 ExactSymNames == {"legall", "near_sym_a", "near_sym_b"}
 
-CONSTANT MaxLoads
-VARIABLES name, cache, loads
-vars == <<name, cache, loads>>
+CONSTANTS MaxLoads,
+          SharedBuf    \* FALSE: the code as it is (a load hands out arrays no later action writes);
+                       \* TRUE: negative model - loads copy into ONE output buffer per filter length
+VARIABLES name, cache, loads,
+          held,        \* names of the tables a caller still holds from earlier loads
+          owner        \* SharedBuf only: which table's values each length-class buffer shows now
+vars == <<name, cache, loads, held, owner>>
 
 Rev(s) == Force([k \in 1 .. Len(s) |-> s[Len(s) + 1 - k]])
 SeqEq(a, b) == Len(a) = Len(b) /\ \A k \in 1 .. Len(a) : LEq(a[k], b[k])
@@ -82,22 +86,31 @@ QshiftOK(n) ==
 
 (* ---- one behaviour per table name: Init -> Pick(name) ---- *)
 Names == Level1Names \cup QshiftNames
-Init == name = "none" /\ cache = {} /\ loads = 0
+\* tables whose same-named filters have equal lengths can share an output buffer (the two 10-tap q-shift tables)
+LenClass(n) == IF n \in {"qshift_06", "qshift_a"} THEN "q10" ELSE n
+Init == name = "none" /\ cache = {} /\ loads = 0 /\ held = {} /\ owner = [c \in {} |-> ""]
 Pick == /\ name = "none" /\ loads = 0
         /\ \E n \in Names : name' = n
-        /\ UNCHANGED <<cache, loads>>
+        /\ UNCHANGED <<cache, loads, held, owner>>
 
 (* ---- loader state machine: COEFF_CACHE (dtcwt/coeffs.py _load_from_file) ---- *)
 \* a load looks the file up in the cache (hit) or reads it and stores it (miss); nothing else ever
 \* writes the cache, and no action writes a cached array, so what a load returns is Tab[n] regardless
 \* of the history.  `name` doubles as "the table returned by the last load".
-LoadNames == {"near_sym_a", "qshift_a", "qshift_b_bp"}
+LoadNames == {"near_sym_a", "qshift_a", "qshift_06", "qshift_b_bp"}
 Load(n) == /\ loads < MaxLoads /\ (name = "none" \/ loads > 0)
            /\ name' = n /\ cache' = cache \cup {n} /\ loads' = loads + 1
+           /\ held' = held \cup {n}
+           /\ owner' = [c \in (DOMAIN owner) \cup {LenClass(n)} |-> IF c = LenClass(n) THEN n ELSE owner[c]]
 Next == Pick \/ \E n \in LoadNames : Load(n)
 Spec == Init /\ [][Next]_vars
 
 LoadReturnsTable == loads > 0 => (name \in cache /\ cache \subseteq LoadNames)
+\* which table the arrays handed out for n show NOW
+Shows(n) == IF SharedBuf THEN owner[LenClass(n)] ELSE n
+\* C18 "loading twice returns equal values" also for a caller that keeps the first result: no later load (of any
+\* table) may change what an earlier load returned
+HeldStable == \A n \in held : Shows(n) = n
 \* hit/miss as the hook reports it: a load of n is a hit iff n was loaded before
 WasHit(n) == n \in cache
 
